@@ -542,6 +542,11 @@ func reifyMergeValue(
 	case reflect.Struct:
 		sub, err := val.toConfig(opts.opts)
 		if err != nil {
+			if baseType == tRegexp {
+				// a struct with a primitive encoding: the new value
+				// replaces the one in place, like in reifyValue
+				return reifyPrimitive(opts, val, t, baseType)
+			}
 			return reflect.Value{}, raiseExpectedObject(opts.opts, val)
 		}
 		return oldValue, reifyStruct(opts.opts, old, sub)
